@@ -163,9 +163,14 @@ PYOP = {"eq": lambda a, b: a == b, "ne": lambda a, b: a != b, "lt": lambda a, b:
 class Emit:
     """emits DSL calls for an AST; `resolve(rel)` maps a relative path to the python object/expr"""
 
-    def __init__(self, root_lookup):
+    def __init__(self, root_lookup, fault_path=None, fire=None):
         self.lookup = root_lookup     # rel path string -> python attribute chain result (in expr mode)
         self.bind = {}
+        # fault injection (C16): the user code raises when elaboration reaches the statement position `fault_path` - a tuple
+        # (top-level index, index inside that compound statement, ...); an index equal to the length of a body is its end;
+        # inside an `if` the indices run over the arm bodies and the else body laid end to end, each followed by its end position
+        self.fault_path = tuple(fault_path) if fault_path is not None else None
+        self.fire = fire
 
     def path(self, p):
         return self.lookup(p)
@@ -240,24 +245,32 @@ class Emit:
         rl = vsc.rangelist(*args)
         return tgt.not_inside(rl) if e["neg"] else tgt.inside(rl)
 
-    def stmts(self, ss):
-        for s in ss:
-            self.stmt(s)
+    def at(self, pos):
+        if self.fault_path is not None and tuple(pos) == self.fault_path:
+            self.fire()
 
-    def stmt(self, s):
+    def stmts(self, ss, prefix=(), off=0):
+        for i, s in enumerate(ss):
+            self.at(prefix + (off + i,))
+            self.stmt(s, prefix + (off + i,))
+        self.at(prefix + (off + len(ss),))
+
+    def stmt(self, s, cur=()):
         k = s["k"]
         if k == "e":
             self.expr(s["e"])
         elif k == "if":
+            off = 0
             for i, arm in enumerate(s["arms"]):
                 with (vsc.if_then if i == 0 else vsc.else_if)(self.expr(arm["c"])):
-                    self.stmts(arm["body"])
+                    self.stmts(arm["body"], cur, off)
+                off += len(arm["body"]) + 1
             if s["els"]:
                 with vsc.else_then:
-                    self.stmts(s["els"])
+                    self.stmts(s["els"], cur, off)
         elif k == "imp":
             with vsc.implies(self.expr(s["c"])):
-                self.stmts(s["body"])
+                self.stmts(s["body"], cur)
         elif k == "uniq":
             args = []
             for a in s["args"]:
@@ -274,15 +287,15 @@ class Emit:
             if use_it and use_idx:
                 with vsc.foreach(lst, idx=True, it=True) as (i, it):
                     self.bind[s["v"]] = {"it": it, "idx": i}
-                    self.stmts(s["body"])
+                    self.stmts(s["body"], cur)
             elif use_idx:
                 with vsc.foreach(lst, idx=True) as i:
                     self.bind[s["v"]] = {"idx": i}
-                    self.stmts(s["body"])
+                    self.stmts(s["body"], cur)
             else:
                 with vsc.foreach(lst) as it:
                     self.bind[s["v"]] = {"it": it}
-                    self.stmts(s["body"])
+                    self.stmts(s["body"], cur)
             self.bind.pop(s["v"], None)
         elif k == "soft":
             vsc.soft(self.expr(s["e"]))
@@ -403,16 +416,14 @@ def build_classes(world, hooks=None):
         ns = {"__init__": init}
         for blk in c.get("blocks", []):
             def body(self, _blk=blk, _cn=cn):
-                em = Emit(chain_lookup(self))
                 pos = hooks.get("raise_in_block", {}).get((_cn, _blk["name"]))
-                for i, st in enumerate(_blk["body"]):
-                    if pos is not None and pos == i:
-                        hooks.get("on_fire", lambda: None)()
-                        raise hooks["exc"]("injected in block %s.%s at %d" % (_cn, _blk["name"], i))
-                    em.stmt(st)
-                if pos is not None and pos >= len(_blk["body"]):
+                if isinstance(pos, int):
+                    pos = (min(pos, len(_blk["body"])),)
+
+                def fire():
                     hooks.get("on_fire", lambda: None)()
-                    raise hooks["exc"]("injected in block %s.%s at end" % (_cn, _blk["name"]))
+                    raise hooks["exc"]("injected in block %s.%s at %s" % (_cn, _blk["name"], pos))
+                Emit(chain_lookup(self), pos, fire).stmts(_blk["body"])
             body.__name__ = blk["name"]
             ns[blk["name"]] = (vsc.dynamic_constraint if blk.get("dynamic") else vsc.constraint)(body)
         if c.get("cb"):
